@@ -12,8 +12,11 @@
    <= t, printf-style digits), the harness shows specification and glibc coincide. *)
 From Coq Require Import List ZArith Lia Bool Arith NArith.
 From Coq.Strings Require Import Byte.
-From Muduo Require Import Base_Bytes Gen_C20 Gen_C20Net Gen_C20Tz Gen_C20Ts C20_Model C20_TzGen C20_TsGen C20_NetModel C20_TzifModel
-  C20_Proofs C20_TzProofs C20_TzLink C20_TextProofs C20_TsLink C20_NetProofs C20_TzifProofs.
+From Coq Require Import Reals.
+From Flocq Require Import Core.
+From Muduo Require Import Base_Bytes Gen_C20 Gen_C20Net Gen_C20Tz Gen_C20Ts C20_Model C20_TzGen C20_TsGen C20_NetModel C20_Ip6Model
+  C20_TzifModel Gen_C20Tzif
+  C20_Proofs C20_TzProofs C20_TzLink C20_TextProofs C20_TsLink C20_NetProofs C20_Ip6Proofs C20_TzifProofs C20_TzifLink C20_FlocqProofs.
 Import ListNotations.
 Local Open Scope Z_scope.
 
@@ -265,6 +268,22 @@ Theorem C20_tzif_generated_plan : forall a b c d e f,
 Proof. exact reader_plan_consistent. Qed.
 Print Assumptions C20_tzif_generated_plan.
 
+(* None of the reader is hand-written any more: detail::File::readInt64 / readInt32 / readUInt8 /
+   readBytes / skip, readDataBlock and readTimeZoneFile (with its try / catch) are translated
+   statement by statement from TimeZone.cc into Gen_C20Tzif (reader monad: value | std::logic_error
+   thrown | outside the C++ semantics); only fread / fseek / std::vector semantics are library
+   definitions.  For EVERY file the generated reader is the reference reader the theorems above
+   are proved for (the extracted model runs the generated one). *)
+Theorem C20_tzif_reader_generated :
+  (forall file, tzif_parse_g file = tzif_parse file) /\
+  (forall file c v1, db_to_tz (readDataBlock_g file c v1) = readDataBlock c v1) /\
+  (forall c, File_readInt32 c = lift (readInt32 c)) /\ (forall c, File_readInt64 c = lift (readInt64 c)) /\
+  (forall c, File_readUInt8 c = lift (readUInt8 c)).
+Proof.
+  exact (conj tzif_parse_g_link (conj readDataBlock_link (conj File_readInt32_link (conj File_readInt64_link File_readUInt8_link)))).
+Qed.
+Print Assumptions C20_tzif_reader_generated.
+
 (* ... and when that predicate computes to true on the parsed table, the lookup theorems apply
    to it: toLocalTime uses the last transition <= t, fromLocalTime inverts it as stated in
    C20_local_roundtrip_partial / C20_local_skipped_partial. *)
@@ -378,6 +397,28 @@ Theorem C20_timestamp_arith :
 Proof. exact timestamp_arith. Qed.
 Print Assumptions C20_timestamp_arith.
 
+(* Timestamp::addTime's `static_cast<int64_t>(seconds * kMicroSecondsPerSecond)` in IEEE-754 binary64
+   (Flocq: round to nearest-even of the real product, then truncation; the factor is the GENERATED
+   constant).  The microsecond delta is exact -- the truncation of the exact product, nothing rounded --
+   whenever the significand of [seconds] times 5^6 fits 53 bits: every double m * 2^e with
+   |m| * 15625 < 2^53, in particular every whole number of seconds up to 576 460 752 303 and every n / 2^k
+   in that range; the bound is sharp for whole seconds (576 460 752 305 s is rounded).  Everything else
+   is left to the differential run against the FPU.  Depends on the axioms of Coq's Reals. *)
+Theorem C20_addtime_exactness :
+  (forall m e, Z.abs m * 15625 < 2 ^ 53 -> -1080 <= e ->
+     let s := F2R (Float radix2 m e) in
+     rnd64 (s * IZR Timestamp_addTime_factor) = (s * IZR Timestamp_addTime_factor)%R /\
+     addTime_delta s = Ztrunc (s * 1000000)) /\
+  (forall n, Z.abs n <= 576460752303 ->
+     addTime_delta (IZR n) = n * 1000000 /\ forall t, addTime_value t (IZR n) = t + n * 1000000) /\
+  (forall n k, Z.abs n * 15625 < 2 ^ 53 -> 0 <= k <= 1080 ->
+     addTime_delta (IZR n / IZR (2 ^ k)) = Ztrunc (IZR n / IZR (2 ^ k) * 1000000)) /\
+  rnd64 (IZR 576460752305 * IZR Timestamp_addTime_factor) <> (IZR 576460752305 * IZR Timestamp_addTime_factor)%R.
+Proof.
+  exact (conj addTime_product_exact (conj addTime_whole_seconds (conj addTime_binary_fraction addTime_rounding_witness))).
+Qed.
+Print Assumptions C20_addtime_exactness.
+
 (* Date::toIsoString (format, arguments and buffer size GENERATED from Date.cc, over the generated
    getYearMonthDay): "YYYY-MM-DD" of the day's date for every day 1900-01-01..2500-12-31, and it
    reads back *)
@@ -472,11 +513,11 @@ Print Assumptions C20_ipport_roundtrip.
 (* InetAddress::toIp() / toIpPort() with their scratch arrays -- array sizes GENERATED from
    InetAddress.cc, the size assertions of sockets::toIp and the '[' offset of sockets::toIpPort
    GENERATED from SocketsOps.cc: no assertion fires and nothing is truncated, i.e. the strings are
-   those of the unbounded model above, for every address and port, provided inet_ntop(AF_INET6)
-   prints at most INET6_ADDRSTRLEN - 1 = 45 characters (platform contract; the IPv4 text is proved
-   <= 15).  In numbers: size >= longest text + 1. *)
+   those of the unbounded model above, for every address and port, provided the IPv6 text has at
+   most INET6_ADDRSTRLEN - 1 = 45 characters (discharged for the RFC 5952 printer by
+   C20_ipv6_roundtrip below; the IPv4 text is proved <= 15).  In numbers: size >= longest text + 1. *)
 Theorem C20_inet_buffers :
-  (forall ntop6 sa p, (forall a, (length (ntop6 a) <= 45)%nat) ->
+  (forall ntop6 sa p, (sa_family sa = AF_INET6 -> (length (ntop6 (sa_addr sa)) <= 45)%nat) ->
      0 <= p < 65536 -> sa_port sa = port_store p ->
      (sa_family sa = AF_INET \/ sa_family sa = AF_INET6) ->
      (sa_family sa = AF_INET -> exists a b c d, sa_addr sa = [a; b; c; d]) ->
@@ -498,6 +539,32 @@ Theorem C20_inet_scope_id : forall ntop6 sa id,
   (sa_family sa = AF_INET6 -> sa_scope (set_scope_id sa id) = id).
 Proof. exact scope_id_invisible. Qed.
 Print Assumptions C20_inet_scope_id.
+
+(* inet_ntop(AF_INET6) / inet_pton(AF_INET6) as Gallina functions (C20_Ip6Model: RFC 5952 text --
+   lower-case groups without leading zeros, the leftmost longest run of >= 2 zero groups as "::",
+   dotted quad for IPv4-compatible / IPv4-mapped addresses; the reader accepts every compression
+   form, upper case, embedded IPv4) -- compared with glibc on structured and random addresses and
+   texts by the harness.  For ALL 2^128 addresses the text reads back to the address, and it is at
+   most 39 <= INET6_ADDRSTRLEN - 1 characters; hence the buffer theorem needs no platform
+   hypothesis for this printer. *)
+Theorem C20_ipv6_roundtrip :
+  (forall a, length a = 16%nat -> pton6 (ntop6 a) = Some a /\ (length (ntop6 a) <= 39)%nat) /\
+  (forall sa p, 0 <= p < 65536 -> sa_port sa = port_store p -> sa_family sa = AF_INET6 -> length (sa_addr sa) = 16%nat ->
+     inet_toIp ntop6 sa = Some (toIp ntop6 sa) /\ inet_toIpPort ntop6 sa = Some (toIpPort ntop6 sa) /\
+     parse_ipport (toIpPort ntop6 sa) = Some (true, ntop6 (sa_addr sa), p) /\
+     pton6 (ntop6 (sa_addr sa)) = Some (sa_addr sa)).
+Proof.
+  split.
+  - intros a Hl. exact (conj (ipv6_roundtrip a Hl) (ntop6_length a Hl)).
+  - intros sa p Hp Hport Hf Hl.
+    pose proof (ntop6_length _ Hl) as H39.
+    destruct (inet_buffers ntop6 sa p ltac:(intros _; lia) Hp Hport (or_intror Hf)
+                ltac:(intros E; rewrite E in Hf; discriminate)) as [B1 B2].
+    pose proof (ipport_roundtrip ntop6 sa p Hp Hport (or_intror Hf) ltac:(intros E; rewrite E in Hf; discriminate)) as R.
+    rewrite Hf in R. rewrite (toIp_v6 ntop6 sa Hf) in R.
+    exact (conj B1 (conj B2 (conj R (ipv6_roundtrip _ Hl)))).
+Qed.
+Print Assumptions C20_ipv6_roundtrip.
 
 Example C20_text_nonvacuous :
   ts_toString_g 1234567890123456 = [x31;x32;x33;x34;x35;x36;x37;x38;x39;x30;x2e;x31;x32;x33;x34;x35;x36] /\
